@@ -44,8 +44,15 @@ Definition lapply (e : lev) (s : ls) : option ls :=
   | LBusy p f => Some s
   | LRelease p f =>
       match lookup f (holder s) with
-      | Some q => if Z.eqb q p && negb (has_key f (running s))
-                  then Some {| holder := remove_key f (holder s); running := running s; forced := forced s |}
+      | Some q => if Z.eqb q p
+                  then if negb (has_key f (running s))
+                       then Some {| holder := remove_key f (holder s); running := running s; forced := forced s |}
+                       else None
+                  else if mem p f (forced s)
+                  (* a redo-unlocked child drops its force-owned Lock object: fcntl(F_UNLCK) by a
+                     process that does not hold the lock changes nothing; the ancestor still holds it *)
+                  then Some {| holder := holder s; running := running s;
+                               forced := filter (fun x => negb (Z.eqb (fst x) p && Z.eqb (snd x) f)) (forced s) |}
                   else None
       | None => None
       end
